@@ -14,6 +14,14 @@ QUICK_BLK = ["blk128_enc_40", "blk128_dec_56", "blk64_enc_36", "blk64_dec_32"]
 # MANTIS block functions, functionally (WholeMantis.mcryptA_final / mcryptB_final): stored tweak / per-call tweak, r = 5..8
 MBLK_PARTS = ["mblk_%s_%d" % (k, r) for k in ("crypt", "cryptt") for r in (5, 6, 7, 8)]
 QUICK_MBLK = ["mblk_crypt_5", "mblk_crypt_8", "mblk_cryptt_6", "mblk_cryptt_7"]
+# MANTIS key-schedule functions, functionally (WholeMantisKey.v): accepted and rejected set_key calls, set_tweak (8 bytes, NULL,
+# rejected length), swap_modes
+MKEY_BAD = ["mkey_setkeybad_15_6", "mkey_setkeybad_17_8", "mkey_setkeybad_16_4", "mkey_setkeybad_16_9", "mkey_setkeybad_0_0",
+            "mkey_setkeybad_4294967295_5", "mkey_settweak_bad7"]
+MKEY_PARTS = (["mkey_setkey_%d_%d" % (r, m) for r in (5, 6, 7, 8) for m in (1, 0)] + MKEY_BAD +
+              ["mkey_settweak_8", "mkey_settweak_null", "mkey_swap"])
+QUICK_MKEY = ["mkey_setkey_5_1", "mkey_setkey_8_0", "mkey_setkeybad_16_9", "mkey_setkeybad_15_6", "mkey_settweak_8",
+              "mkey_settweak_null", "mkey_swap"]
 # key-schedule functions: every accepted key size, rejected sizes, tweaked keys, tweak changes for both round counts
 def key_parts(w, quick):
     bs = 16 if w == "128" else 8
